@@ -16,7 +16,7 @@ def main(argv):
     tracecheck.run(rep, PID, 'drive-multilin', 'MultiLin', 'MultiLin_x.cfg', 120 if th else 30, [rep.seed * 100 + 50 + i for i in range(3 if th else 1)], 'multilin-park', comp_key='Op', extra=['-park'], dfs=True)
     # the windows of WindowWhen and the groups of GroupBy are unicast subjects: a window / group subscribed while the source keeps notifying must
     # deliver the queued backlog and the live values in one order (linearizability of the unicast subject, SubjectLin.tla, park mode)
-    parts_subject.lin_part(rep, PID, 40 if th else 12, [rep.seed * 100 + 60 + i for i in range(2 if th else 1)], park=True, kind='unicast')
+    parts_subject.lin_part(rep, PID, 40 if th else 20, [rep.seed * 100 + 60 + i for i in range(3 if th else 2)], park=True, kind='unicast')
     rep.cov['rule'] = ('TLC enumerates every behaviour of Multi.tla: for each multi-source operator instance (merge, combine-latest, zip, race, take/skip-until, '
                        'buffer/sample/throttle-when; creation and operator forms, 2 and 3 sources) every tuple of source scripts (values distinguishable per source; '
                        'completion, error or silence as ending) and EVERY interleaving of them, optionally an Unsubscribe at every position; each case is replayed '
